@@ -739,11 +739,10 @@ func formatElementAsString(expr ast.Expression) string {
 			if e.IsBigInt {
 				return s
 			}
-			// Quote strings with single quotes, triple-escape for nested context
-			// Expected output format is \\\' (three backslashes + quote)
-			// Triple-escape single quotes for nested string literal context
-			s = strings.ReplaceAll(s, "'", "\\\\\\'")
-			return "\\\\\\'" + s + "\\\\\\'"
+			// Quote strings with single quotes (\\\' in the nested context) and escape the
+			// contents at three levels, like a string inside a type parameter: the element is
+			// a quoted string inside the string literal that holds the array/tuple text
+			return "\\\\\\'" + escapeStringForTypeParam(s) + "\\\\\\'"
 		case ast.LiteralBoolean:
 			if e.Value.(bool) {
 				return "true"
